@@ -466,6 +466,84 @@ fn k_ffi_suggestion_single() {
     riti_suggestion_free(std::ptr::null_mut());
 }
 
+/// Counts the strings whose ownership riti_string_free takes back (every call of CString::from_raw).
+static mut RECLAIMED: usize = 0;
+
+unsafe fn stub_cstring_from_raw_counting(ptr: *mut std::os::raw::c_char) -> std::ffi::CString {
+    RECLAIMED += 1;
+    stub_cstring_from_raw(ptr)
+}
+
+/// C19: every string the C interface returns for a list suggestion equals what the Rust API of the same value reports
+/// (candidate, pre-edit text, auxiliary text; ANSI on or off; an empty candidate included), and riti_string_free takes
+/// every non-null string back exactly once (nothing is left to leak), a null string being a no-op.
+#[kani::proof]
+#[kani::unwind(6)]
+#[kani::stub(std::ffi::CString::from_raw, stub_cstring_from_raw_counting)]
+#[kani::stub(poriborton::bijoy2000::unicode_to_bijoy, stub_bijoy)]
+fn k_ffi_strings_match_and_are_reclaimed() {
+    let ansi: bool = kani::any();
+    let empty_candidate: bool = kani::any();
+    let first = if empty_candidate { String::new() } else { String::from("ab") };
+    let ranks = [Rank::First(first), Rank::Last(String::from("z"), 2)];
+    let s = Suggestion::new(String::from("q"), &ranks, 0, ansi);
+    let p = Box::into_raw(Box::new(s));
+    let i: usize = kani::any();
+    kani::assume(i < 2);
+    let c = riti_suggestion_get_suggestion(p, i);
+    let pre = riti_suggestion_get_pre_edit_text(p, i);
+    let aux = riti_suggestion_get_auxiliary_text(p);
+    unsafe {
+        let rs: &Suggestion = &*p;
+        assert!(c_is(c, rs.get_suggestions()[i].as_bytes()), "candidate read-out equals the Rust value");
+        let want = rs.get_pre_edit_text(i);
+        assert!(c_is(pre, want.as_bytes()), "pre-edit read-out equals the Rust value");
+        assert!(c_is(aux, rs.get_auxiliary_text().as_bytes()), "auxiliary read-out equals the Rust value");
+    }
+    riti_suggestion_free(p);
+    kani::cover!(ansi && empty_candidate && i == 0, "reachable: ANSI, empty candidate");
+    kani::cover!(!ansi && i == 1, "reachable: plain");
+    riti_string_free(c);
+    riti_string_free(pre);
+    riti_string_free(aux);
+    unsafe {
+        assert!(RECLAIMED == 3, "every returned string is taken back by riti_string_free");
+    }
+    riti_string_free(std::ptr::null_mut());
+    unsafe {
+        assert!(RECLAIMED == 3, "freeing a null string is a no-op");
+    }
+    std::mem::forget(ranks);
+}
+
+/// C19: the same for the single-text suggestion (empty or not, ANSI on or off).
+#[kani::proof]
+#[kani::unwind(6)]
+#[kani::stub(std::ffi::CString::from_raw, stub_cstring_from_raw_counting)]
+#[kani::stub(poriborton::bijoy2000::unicode_to_bijoy, stub_bijoy)]
+fn k_ffi_single_strings_match_and_are_reclaimed() {
+    let ansi: bool = kani::any();
+    let empty: bool = kani::any();
+    let t = if empty { String::new() } else { String::from("k") };
+    let p = Box::into_raw(Box::new(Suggestion::new_lonely(t, ansi)));
+    let l = riti_suggestion_get_lonely_suggestion(p);
+    let pre = riti_suggestion_get_pre_edit_text(p, 0);
+    unsafe {
+        let rs: &Suggestion = &*p;
+        assert!(c_is(l, rs.get_lonely_suggestion().as_bytes()), "lonely read-out equals the Rust value");
+        let want = rs.get_pre_edit_text(0);
+        assert!(c_is(pre, want.as_bytes()), "pre-edit read-out equals the Rust value");
+    }
+    riti_suggestion_free(p);
+    kani::cover!(ansi && empty, "reachable: ANSI, empty");
+    kani::cover!(!ansi && !empty, "reachable: plain");
+    riti_string_free(l);
+    riti_string_free(pre);
+    unsafe {
+        assert!(RECLAIMED == 2, "every returned string is taken back by riti_string_free");
+    }
+}
+
 #[kani::proof]
 #[kani::unwind(4)]
 #[kani::stub(crate::config::get_user_data_dir, stub_user_data_dir)]
